@@ -2,9 +2,11 @@
 //! real AEADs hide: the nonce of every call (echoed in the tag) and the `SealError` path (they can be told to
 //! fail). "Encryption" is XOR with 0xAA; tag = nonce || big-endian length (4 bytes) || zero padding.
 //! Three nonce sizes: 12 bytes (id 0x7777, like the RFC's AEADs), 24 bytes (0x7778, like XChaCha20-Poly1305) and
+//! (0x777B: the same with a 64-byte key; 0x777C: the same, but its *attached* in-place forms put the tag in front),
 //! 8 bytes (0x7779) and 13 bytes (0x777A, like AES-CCM; not a multiple of 4, tag of 20 bytes): RFC 9180 computes the nonce as base_nonce XOR I2OSP(seq, Nn) for whatever Nn the AEAD has.
 
-use aead::generic_array::typenum::{U0, U12, U13, U16, U20, U24, U32, U8};
+use aead::generic_array::typenum::{U0, U12, U13, U16, U20, U24, U32, U64, U8};
+use aead::Buffer;
 use aead::{AeadCore, AeadInPlace, Key, KeyInit, KeySizeUser, Nonce, Tag};
 use std::cell::Cell;
 
@@ -42,11 +44,11 @@ fn must_fail() -> bool {
 }
 
 macro_rules! probe_aead {
-    ($imp:ident, $suite:ident, $nn:ty, $nt:ty, $id:expr) => {
+    ($imp:ident, $suite:ident, $nn:ty, $nt:ty, $nk:ty, $id:expr, $attached_tag_first:expr) => {
         #[derive(Clone)]
         pub struct $imp;
         impl KeySizeUser for $imp {
-            type KeySize = U32;
+            type KeySize = $nk;
         }
         impl KeyInit for $imp {
             fn new(_key: &Key<Self>) -> Self {
@@ -67,6 +69,31 @@ macro_rules! probe_aead {
             }
         }
         impl AeadInPlace for $imp {
+            // An AEAD may override the ATTACHED forms with a layout of its own (AES-SIV puts the tag in front). HPKE's
+            // wire format is defined through the detached forms (ct || tag), whatever the attached ones do.
+            fn encrypt_in_place(&self, nonce: &Nonce<Self>, aad: &[u8], buffer: &mut dyn Buffer) -> Result<(), aead::Error> {
+                let tag = self.encrypt_in_place_detached(nonce, aad, buffer.as_mut())?;
+                buffer.extend_from_slice(tag.as_slice())?;
+                if $attached_tag_first {
+                    buffer.as_mut().rotate_right(tag.len());
+                }
+                Ok(())
+            }
+            fn decrypt_in_place(&self, nonce: &Nonce<Self>, aad: &[u8], buffer: &mut dyn Buffer) -> Result<(), aead::Error> {
+                let nt = Tag::<Self>::default().len();
+                let n = buffer.len();
+                if n < nt {
+                    return Err(aead::Error);
+                }
+                if $attached_tag_first {
+                    buffer.as_mut().rotate_left(nt);
+                }
+                let (ct, tag) = buffer.as_mut().split_at_mut(n - nt);
+                let tag = Tag::<Self>::clone_from_slice(tag);
+                self.decrypt_in_place_detached(nonce, aad, ct, &tag)?;
+                buffer.truncate(n - nt);
+                Ok(())
+            }
             fn encrypt_in_place_detached(&self, nonce: &Nonce<Self>, _aad: &[u8], buf: &mut [u8]) -> Result<Tag<Self>, aead::Error> {
                 if take(&PANIC_SEAL) {
                     panic!("mock AEAD: deliberate panic in encrypt");
@@ -101,7 +128,11 @@ macro_rules! probe_aead {
     };
 }
 
-probe_aead!(ProbeImpl, ProbeAead, U12, U16, 0x7777);
-probe_aead!(ProbeImpl24, ProbeAead24, U24, U32, 0x7778);
-probe_aead!(ProbeImpl8, ProbeAead8, U8, U16, 0x7779);
-probe_aead!(ProbeImpl13, ProbeAead13, U13, U20, 0x777A);
+probe_aead!(ProbeImpl, ProbeAead, U12, U16, U32, 0x7777, false);
+probe_aead!(ProbeImpl24, ProbeAead24, U24, U32, U32, 0x7778, false);
+probe_aead!(ProbeImpl8, ProbeAead8, U8, U16, U32, 0x7779, false);
+probe_aead!(ProbeImpl13, ProbeAead13, U13, U20, U32, 0x777A, false);
+// a 64-byte key (the shape of AES-256-SIV)
+probe_aead!(ProbeImplK64, ProbeAeadK64, U12, U16, U64, 0x777B, false);
+// attached forms with the tag in front
+probe_aead!(ProbeImplSiv, ProbeAeadSiv, U12, U16, U32, 0x777C, true);
